@@ -12,6 +12,7 @@ from vt.world import World, WSpec, Abort
 
 ID = 'C15'
 KINDS = ['enum']
+USES_KERNEL = True
 LEVEL = 'model_checking'
 TECHNIQUE = ('exhaustive enumeration of all request sequences up to a depth over a small name pool, each replayed on a '
              'fresh real daemon and compared step by step with a reference model (a set of lower-cased names)')
